@@ -4,9 +4,9 @@ from kunit import define
 F = "tool/src/lib.rs"
 E = [
     ("repeated_push_in_a_context_keeps_every_error", "two pushes (arbitrary, possibly equal errors) inside a type context: no RefCell panic, both kept in order, guard drop restores the default context",
-     [(F, "impl ErrorStore<'tcx,E>::push_error"), (F, "impl ErrorStore<'tcx,E>::set_context_ty"), (F, "impl Drop for ErrorContextGuard<'_,'_,E>::drop")], 1, ["C15"], "bounded", "fixed call sequence, arbitrary u8 errors"),
+     [(F, "impl ErrorStore<'tcx,E>::push_error"), (F, "impl ErrorStore<'tcx,E>::set_context_ty"), (F, "impl Drop for ErrorContextGuard<'_,'_,E>::drop")], 1, ["C15"], "bounded", "fixed call sequence, arbitrary u8 errors", ["thorough"]),
     ("nested_contexts_restore_in_order", "type context > method context: pushes carry the context current at the push; guards restore in LIFO order; no panic",
-     [(F, "impl ErrorStore<'tcx,E>::set_context_method"), (F, "impl ErrorStore<'tcx,E>::push_error")], 1, ["C15"], "bounded", "fixed nesting shape, optional outer push"),
+     [(F, "impl ErrorStore<'tcx,E>::set_context_method"), (F, "impl ErrorStore<'tcx,E>::push_error")], 1, ["C15"], "bounded", "fixed nesting shape, optional outer push", ["thorough"]),
     ("push_without_context_and_take_all", "push with no context set, take_all returns it and drains the store",
      [(F, "impl ErrorStore<'tcx,E>::take_all")], 1, ["C15"], "bounded", "fixed call sequence"),
 ]
